@@ -23,7 +23,7 @@ RULE = ('cases = (identity or operator, table, arguments); seeded random rectang
         '>= 2 data rows and >= 2 fields. Distinct = SHA-1 of the case.')
 ASSUMPTIONS = ['domain as stated by the property: rectangular tables, unique keys, distinct text field names, variable names different from the '
                'variable / value field names; fromdicts(dicts(t)) needs >= 1 data row']
-KINDS = ['melt-recast', 'melt', 'transpose', 'flatten', 'unflatten-period', 'pivot', 'unpack', 'unpackdict', 'capture', 'split', 'splitdown',
+KINDS = ['melt-recast', 'recast-direct', 'melt', 'transpose', 'flatten', 'unflatten-period', 'pivot', 'unpack', 'unpackdict', 'capture', 'split', 'splitdown',
          'dicts-roundtrip', 'columns-roundtrip']
 REQUIRED = (['kind:' + k for k in KINDS] + ['none-key', 'compound-key', 'key-not-leading', 'one-column', 'period=1', 'period=width',
             'pivot-missing-pair', 'field-by-index', 'include-original', 'explicit-variables-permuted', 'fromdicts-sample<nrows'])
@@ -68,6 +68,15 @@ def cases(ctx):
                 vs = rng.sample(vars_, rng.randint(1, len(vars_)))
                 c['variables'] = vs
             c['vf'] = rng.choice([('variable', 'value'), ('var', 'val')])
+        elif kind == 'recast-direct':
+            # a long table with repeated and missing (id, variable) pairs, optional reducers / missing / second key field
+            ids = rng.sample([None, 1, 2, 'a', (1, 2), 2.5], rng.randint(1, 4))
+            vs = rng.sample(['height', 'weight', 'age', 'zip'], rng.randint(1, 3))
+            rows = [[rng.choice(ids), rng.choice(['x', 'y']), rng.choice(vs), rng.choice([1, 2, 3, 5, None])] for _ in range(n)]
+            c['table'] = [['id', 'grp', 'variable', 'value']] + rows
+            c['key'] = rng.choice(['id', ['id', 'grp'], None])
+            c['reducers'] = rng.choice([None, 'sum-height', 'len-all'])
+            c['missing'] = rng.choice([None, 'M', 0])
         elif kind in ('transpose', 'flatten', 'dicts-roundtrip', 'columns-roundtrip'):
             c['table'] = [names] + [[rng.choice(VALS) for _ in range(nf)] for _ in range(n)]
         elif kind == 'unflatten-period':
@@ -183,6 +192,60 @@ def judge(case, ctx):
         else:
             exp = [tuple(klist)]
         return _diff(back, exp, 'recast(melt)')
+
+    if kind == 'recast-direct':
+        key, missing = case['key'], case['missing']
+        if key is None:
+            t2 = [[r[0], r[2], r[3]] for r in table]          # without the second key field: keys are inferred
+            hdr2, rows2 = t2[0], [tuple(r) for r in t2[1:]]
+            klist = ['id']
+        else:
+            t2, hdr2, rows2 = table, hdr, rows
+            klist = key if isinstance(key, list) else [key]
+            if klist == ['id']:
+                t2 = [[r[0], r[2], r[3]] for r in table]
+                hdr2, rows2 = t2[0], [tuple(r) for r in t2[1:]]
+        kidx = [hdr2.index(k) for k in klist]
+        vi, xi = hdr2.index('variable'), hdr2.index('value')
+        variables = sorted({r[vi] for r in rows2})
+        red = {}
+        if case['reducers'] == 'sum-height':
+            red = {'height': lambda vals: sum(v or 0 for v in vals)}
+        elif case['reducers'] == 'len-all':
+            red = {v: len for v in variables}
+        groups = []
+        for r in rows2:
+            k = tuple(r[i] for i in kidx)
+            for g in groups:
+                if util.model_cmp(g[0], k) == 0:
+                    g[1].append(r)
+                    break
+            else:
+                groups.append((k, [r]))
+        groups.sort(key=lambda g: util.model_key(g[0]))
+        exp = [tuple(klist) + tuple(variables)]
+        for k, grs in groups:
+            o = list(tuple(grs[0][i] for i in kidx))
+            for v in variables:
+                vals = [r[xi] for r in grs if r[vi] == v]
+                if not vals:
+                    o.append(missing)
+                elif len(vals) == 1:
+                    o.append(vals[0])
+                else:
+                    o.append(red[v](vals) if v in red else list(vals))
+            exp.append(tuple(o))
+        if not rows2:
+            exp = [tuple(klist)]
+        kw = {}
+        if key is not None:
+            kw['key'] = key
+        if red:
+            kw['reducers'] = red
+        if missing is not None:
+            kw['missing'] = missing
+        got = util.attempt_rows(lambda: petl.recast(t2, **kw))
+        return _diff(got, exp, 'recast')
 
     if kind == 'transpose':
         back = util.attempt_rows(lambda: petl.transpose(petl.transpose(table)))
